@@ -201,6 +201,9 @@ class POP(BaseModelSingleSet):
         sample_name = self.sample_name
         feature_name = self.feature_name
 
+        # A new fit produces unsorted modes (as in the rotators)
+        self.sorted = False
+
         # Transform in PC space
         X = self.pca.fit_transform(X)
 
